@@ -75,6 +75,7 @@ def _filter(m, spec, case, start, deviation, ys):
                     db[name] = ir.Series(start=start, values=np.zeros((case["N"], 1)))
                 db[name][start + t] = v
         kw["shocks_from_data"] = True
+    kw.update(kc.return_kwargs(case, need="smooth"))      # an output selection that still returns the smoother
     out = api("kalman_filter", m.kalman_filter, db, span, deviation=deviation, rescale_variance=case["rescale"], **kw)
     return out, levels, lin
 
